@@ -50,6 +50,16 @@ def get_facts(repo=REPO, verbose=True):
     """returns (Facts, info dict).  Re-extracts unless a fact file for exactly these source
     bytes exists."""
     os.makedirs(CACHE, exist_ok=True)
+    for attempt in range(3):
+        try:
+            return _get_facts_once(repo, verbose)
+        except FileNotFoundError:
+            # another worker's cache clean-up removed the fact file between the existence test and the read: extract again
+            if attempt == 2:
+                raise
+
+
+def _get_facts_once(repo, verbose):
     sh, nfiles = source_hash(repo)
     out = os.path.join(CACHE, "facts-%s.json" % sh)
     t0 = time.time()
@@ -57,6 +67,11 @@ def get_facts(repo=REPO, verbose=True):
     tdir = os.environ.get("SKV_TARGET_DIR") or os.path.join(CACHE, "target")
     with open(tdir.rstrip("/") + ".lock", "w") as lk:
         fcntl.flock(lk, fcntl.LOCK_EX)
+        if os.path.exists(out):
+            try:
+                os.utime(out, None)  # a cache hit counts as recent use
+            except OSError:
+                pass
         if not os.path.exists(out):
             tmp = out + ".tmp.%d" % os.getpid()
             r = subprocess.run([os.path.join(VERIF, "bin", "extract.sh"), repo, tmp,
@@ -69,10 +84,10 @@ def get_facts(repo=REPO, verbose=True):
             if os.path.exists(tmp + ".log"):
                 os.remove(tmp + ".log")
             extracted = True
-            # keep the cache small: drop fact files other than the 6 newest
+            # keep the cache small: drop fact files other than the 200 most recently used
             fs = sorted((f for f in os.listdir(CACHE) if f.startswith("facts-") and f.endswith(".json")),
                         key=lambda f: os.path.getmtime(os.path.join(CACHE, f)))
-            for f in fs[:-60]:
+            for f in fs[:-200]:
                 try:
                     os.remove(os.path.join(CACHE, f))
                 except OSError:
